@@ -42,7 +42,7 @@ type World struct {
 	initialAlloc  bool
 	delayReleases bool
 	holdReleases  bool // every release is delivered later (the scenario decides when)
-	regTotal      int // registered so far (alive or not)
+	regTotal      int  // registered so far (alive or not)
 	roster        []string
 	pending       []pendingRelease // releases a table has been told to make but has not delivered yet
 	transit       map[string]bool  // players of pending releases
